@@ -100,6 +100,8 @@ def safe_run(mod, case, hang_s=10.0):
     A Hang, or an exception that escapes the harness with a frame of the code under test on its
     traceback, is a violation (clause HANG / RAISE); anything else is a harness error.
     """
+    if any(case.get(k) for k in ('long_haul', 'long_life', 'crowd', 'many_joins', 'long_run', 'long_rt', 'big_barrier')):
+        hang_s = max(hang_s, 90.0)      # the deliberately long lives (thousands of packets, a million filler events)
     old_out = sys.stdout
     sys.stdout = _NULL
     # the limit is CPU time of this process (a spinning kernel burns CPU; a loaded machine does not make a run "hang"),
